@@ -43,7 +43,7 @@ fn main() {
                 "c13" => c13_rates(&reg, &cfg, &mut out),
                 "c14" => c14_tables(&reg, &cfg, &mut out),
                 "c15" => c15_format(&reg, &cfg, &mut out),
-                "c16" => c16_si(&cfg, &mut out),
+                "c16" => { c16_si(&cfg, &mut out); derive_events(&mut out); }
                 "c17" => c17_serde(&reg, &cfg, &mut out),
                 "c18" => c18_special(&reg, &cfg, &mut out),
                 other => {
